@@ -61,7 +61,13 @@ def random_cases(ctx, ntraj, nrestart):
         else:
             pts = [[r.randint(0, g) for _ in range(f)] for _ in range(n)]
         pts.sort()
-        c0 = [list(r.choice(pts)) if r.random() < 0.6 else [r.randint(0, g) for _ in range(f)] for _ in range(k)]
+        # distinct initial centroids: with coinciding ones every observation nearest to them is tied and the
+        # search over tie choices grows like 2^n (coinciding centroids are covered by the enumerated small domain)
+        c0 = []
+        while len(c0) < k:
+            cand = list(r.choice(pts)) if r.random() < 0.6 else [r.randint(0, g) for _ in range(f)]
+            if cand not in c0:
+                c0.append(cand)
         v = r.choice(VARIANTS)
         metric = "l1" if (f == 1 and v[1] == "linf") else v[1]
         out.append({"kind": "traj", "inp": {"ft": v[0], "metric": metric, "form": v[2], "f": f, "pts": pts, "c0": c0,
